@@ -25,12 +25,13 @@ LINE_BUDGET = 3_000_000
 
 def bases():
     out = {}
-    for b in ("E1", "E3"):
+    for b in ("E1", "E3", "E5"):
         out["edif:" + b] = (".edf", edif_writer.render(fdesigns.BASES[b]()))
     out["verilog:base"] = (".v", vw.render(c06.base_vad()))
     out["verilog:chain"] = (".v", vw.render(c06.chain_vad(3), order=[2, 0, 1]))
     for b in ("B1", "B2"):
         out["eblif:" + b] = (".eblif", ew.render(c18.base(b)))
+    out["eblif:B2-conn-first"] = (".eblif", ew.render(c18.base("B2"), order=[3, 4, 0, 1, 2]))
     return out
 
 
@@ -49,12 +50,12 @@ def tokenize(ext, text):
 def declared_names(ext, tokens):
     """names a file declares (modules / cells / models): replacing a token by one of them yields
     recursive or mis-typed references rather than plainly unknown ones."""
-    kw = {".v": ("module",), ".edf": ("cell", "library"), ".eblif": (".model",)}[ext]
+    kw = {".v": ("module",), ".edf": ("cell", "library", "instance"), ".eblif": (".model",)}[ext]
     out = []
     for a, b in zip(tokens, tokens[1:]):
         if a.lower() in kw and b not in out and b not in ("(", ")"):
             out.append(b.strip())
-    return out[:4]
+    return out[:6]
 
 
 def faulted(tokens, sep, kind, i, repl=None):
@@ -140,6 +141,24 @@ def probe():
     return tuple(out)
 
 
+def structure(path):
+    """order-insensitive structural summary of the netlist a good file parses to."""
+    s = core.sdn()
+    try:
+        with core.quiet():
+            n = s.parse(path)
+    except Exception as ex:
+        return ("raised", type(ex).__name__)
+    out = []
+    for lib in n.libraries:
+        for d in lib.definitions:
+            nets = sorted(sorted((type(p).__name__, getattr(getattr(p, "instance", None), "name", None),
+                                  (p.inner_pin.port.name if hasattr(p, "inner_pin") else p.port.name)) for p in w.pins)
+                          for c in d.cables for w in c.wires)
+            out.append((lib.name, d.name, len(d.ports), len(d.cables), sorted(str(x.name) for x in d.children), nets))
+    return (sorted(out, key=repr), n.top_instance.reference.name if n.top_instance is not None and n.top_instance.reference is not None else None)
+
+
 def worker(case):
     fmt, which, kind, lo, hi, repl = case[:6]
     policy = case[6] if len(case) > 6 else "DEFAULT"
@@ -153,6 +172,13 @@ def worker(case):
     n_run = 0
     n_rejected = 0
     ref_probe = probe()
+    good = os.path.join(core.scratch_dir(), "c15_good_%d%s" % (os.getpid(), ext))
+    # the later-parse probe reads a *different* good file of the same format that shares net and instance
+    # names with the base (residue such as pending merges would be invisible on the base itself)
+    others = [k for k in sorted(bases()) if k.split(":")[0] == fmt and k != which]
+    with open(good, "w") as f:
+        f.write(bases()[others[0]][1] if others else text)
+    ref_parse = structure(good)
     before = core.mutable_globals_snapshot()
     if isinstance(repl, str) and repl.startswith("@decl"):
         repl = declared_names(ext, tokens)[int(repl[5:])]
@@ -185,6 +211,13 @@ def worker(case):
                 probs.append(("unsupported-construct-accepted:" + tag, "(%s ...) replaced by (pageSize ...) at token %d" % (tokens[i], i)))
         else:
             n_rejected += 1
+        # a later parse of a good file behaves as in a fresh process
+        now_parse = structure(good)
+        if now_parse != ref_parse:
+            probs.append(("later-parse-differs:%s" % tag, "after fault at token %d (outcome %s) the good file of the same format parses differently" % (i, outcome)))
+            ref_again = structure(good)
+            if ref_again != ref_parse:
+                probs.append(("residue-persists:%s" % tag, "and once more"))
         after = core.mutable_globals_snapshot()
         if after != before:
             diff = sorted(k for k in set(before) | set(after) if before.get(k) != after.get(k))
